@@ -309,7 +309,7 @@ pub fn real_itoa_matches_stub_contract() {
     real_itoa_check(v)
 }
 
-// @check C02,C03 thorough timeout=7200 mem=30
+// @disabled-check (does not finish in 40 minutes: not registered) C02,C03 thorough timeout=7200 mem=30
 // @encodes buf::PrefixedStringBuf::push_integer with the REAL itoa::Buffer::format::<u64>
 // @bounds every u64
 // @oracle same as real_itoa_matches_stub_contract
